@@ -50,6 +50,27 @@ pub fn eval(
 }
 
 
+/// On the final iteration, a failed constraint (such as a false
+/// `assert()`) is an error, not a value to keep guessing with.
+pub fn check_failed_constraint(
+    report: &mut diagn::Report,
+    ctx: &asm::ResolverContext,
+    value: &expr::Value)
+    -> Result<(), ()>
+{
+    if let expr::Value::FailedConstraint(msg) = value
+    {
+        if ctx.is_last_iteration
+        {
+            report.message(msg.clone());
+            return Err(());
+        }
+    }
+
+    Ok(())
+}
+
+
 /// Evaluates an expression without relying on
 /// addresses, banks, user-defined functions,
 /// or user-defined instructions.
